@@ -34,6 +34,14 @@ def slim(e):
     return e
 
 
+def caller_histories(ctx, binp, events, ops, what, extra_env=None):
+    """TLC-generated caller histories (spec/CallHistory) on the English list: the trace starts with the SetWordList event"""
+    vlib.call_history_model(ctx)
+    vlib.call_histories(ctx, binp, events, ops, "Bip39Trace", what, extra_env=extra_env, stateful=True,
+                        prefix=[dict(op="bip39.SetWordList", **{"in": dict(lang="english")})],
+                        select=lambda e: e["in"].get("lang") == "english" and e["out"].get("ok") is True)
+
+
 def judge(ctx, binp, events, what, extra_env=None):
     check_pins(ctx, events)
     bad = vlib.validate_trace(ctx, "Bip39Trace", events, stateful=True, chunk=max(150, len(events) // vlib.NCPU))
